@@ -29,13 +29,18 @@
                          gas the CALL instruction consumed -- which together tell "precompile"
                          from "account without code" in every fork.
 
-   A test history is Configure* followed by one probe.  `prev` (only with TrackPrev) remembers the
+   A test history is (Configure | Run)* followed by one probe.  `ran` remembers under which fork a
+   transaction was last executed on this Evm (Run: a plain call of an account without code).  `prev` (only with TrackPrev) remembers the
    previously configured fork so that TLC also explores every re-configuration f1 -> f2 before a
    probe; the specification says that the answer depends on the current fork only. *)
 EXTENDS Integers, Sequences, FiniteSets, TLC, Json
 
 CONSTANTS MaxHist,      \* bound on the length of a test history
-          TrackPrev     \* TRUE: histories Configure(f1) Configure(f2) probe are explored for all f1, f2
+          TrackPrev,    \* TRUE: histories Configure(f1) Configure(f2) probe are explored for all f1, f2
+          TrackRan      \* "none" | "dep" | "all": histories Configure(f1) Run Configure(f2) probe -- a transaction
+                        \* was EXECUTED under f1 before the re-configuration (whatever an Evm caches per
+                        \* transaction -- precompile set, warm addresses, tables -- is then f1's).  "dep": after
+                        \* such a history only the fork-dependent opcode bytes are probed (plus every address).
 
 -----------------------------------------------------------------------------
 (* Hardforks, oldest first.  The order is the activation order on Ethereum mainnet.  LATEST is not a
@@ -322,9 +327,10 @@ ASSUME TablesSane ==
 (* The state machine. *)
 VARIABLES fork,   \* configured hardfork, "none" before the first Configure
           prev,   \* previously configured hardfork (only tracked when TrackPrev), else "none"
+          ran,    \* hardfork under which a transaction was last executed on this Evm (TrackRan), else "none"
           last,   \* the last observation
           hist    \* test history (hidden by View)
-vars == <<fork, prev, last, hist>>
+vars == <<fork, prev, ran, last, hist>>
 
 NoObs == [kind |-> "none"]
 
@@ -335,16 +341,26 @@ Proj(f, l) == [ fork |-> f,
 Emit(op, post) ==
     PrintT("EDGE " \o ToJson([hist |-> hist, pre |-> Proj(fork, last), op |-> op, post |-> post]))
 
-Init == fork = "none" /\ prev = "none" /\ last = NoObs /\ hist = <<>>
+Init == fork = "none" /\ prev = "none" /\ ran = "none" /\ last = NoObs /\ hist = <<>>
 
 Configure == \E f \in ForkSet :
     LET op == [op |-> "configure", fork |-> f]
         l  == [kind |-> "configured"] IN
-    /\ fork' = f /\ prev' = (IF TrackPrev THEN fork ELSE "none") /\ last' = l
+    \* (without TrackPrev a second Configure is explored only after a Run)
+    /\ (IF TrackPrev \/ hist = <<>> THEN TRUE ELSE hist[Len(hist)].op = "run")
+    /\ fork' = f /\ prev' = (IF TrackPrev THEN fork ELSE "none") /\ last' = l /\ UNCHANGED ran
     /\ hist' = Append(hist, op)
     /\ Emit(op, Proj(f, l))
 
-Probe(op, l) == /\ last' = l /\ UNCHANGED <<fork, prev>>
+\* execute one plain transaction under the configured fork (nothing observable is required of it here)
+Run == LET op == [op |-> "run", fork |-> fork]
+           l  == [kind |-> "configured"] IN
+    /\ TrackRan # "none" /\ fork # "none" /\ last.kind = "configured" /\ ran # fork
+    /\ ran' = fork /\ last' = l /\ UNCHANGED <<fork, prev>>
+    /\ hist' = Append(hist, op)
+    /\ Emit(op, Proj(fork, l))
+
+Probe(op, l) == /\ last' = l /\ UNCHANGED <<fork, prev, ran>>
                 /\ hist' = Append(hist, op)
                 /\ Emit(op, Proj(fork, l))
 
@@ -361,7 +377,8 @@ ExecObs(b, f, path) ==
     LET c == Class(b, f) IN
     IF path = "evm" /\ c # "defined" THEN [kind |-> "exec", class |-> c, gas_all |-> TRUE]
     ELSE [kind |-> "exec", class |-> c]
-Exec == \E b \in Bytes : \E path \in {"evm", "table"} :
+ForkDependent == {b \in Bytes : \E f1, f2 \in ForkSet : Class(b, f1) # Class(b, f2)}
+Exec == \E b \in (IF TrackRan = "dep" /\ ran # "none" THEN ForkDependent ELSE Bytes) : \E path \in {"evm", "table"} :
     /\ fork # "none"
     /\ Probe([op |-> "exec", path |-> path, byte |-> b, name |-> Info[b].name, fork |-> fork,
               pushes |-> ProbePushes, observe_gas |-> (path = "evm" /\ Class(b, fork) # "defined")],
@@ -377,20 +394,20 @@ CallAddr == \E a \in Addrs : \E funded \in BOOLEAN :
 \* a history is Configure* then one probe
 Next == /\ Len(hist) < MaxHist
         /\ last.kind \in {"none", "configured"}
-        /\ (Configure \/ InfoAct \/ Exec \/ CallAddr)
+        /\ (Configure \/ Run \/ InfoAct \/ Exec \/ CallAddr)
 
 Spec == Init /\ [][Next]_vars
 
 \* The history itself is hidden; its length is kept so that a configuration reached by a longer
 \* history is not mistaken for the same configuration with budget left (exploration order with
 \* several TLC workers is not strictly breadth-first).
-View == <<fork, prev, last, Len(hist)>>
+View == <<fork, prev, ran, last, Len(hist)>>
 
 -----------------------------------------------------------------------------
 (* The property, as invariants / action properties of the state machine. *)
 LastOp == hist[Len(hist)]
 
-TypeOK == /\ fork \in ForkSet \cup {"none"} /\ prev \in ForkSet \cup {"none"}
+TypeOK == /\ fork \in ForkSet \cup {"none"} /\ prev \in ForkSet \cup {"none"} /\ ran \in ForkSet \cup {"none"}
           /\ last.kind \in {"none", "configured", "info", "exec", "call"}
 
 \* clause 1: undefined behaviour exactly when not (yet) introduced -- or EOF-only, or unassigned
